@@ -29,6 +29,10 @@ TRUSTED = ["networkx Graph / DiGraph taken at face value (each layer is one of t
            "Python view objects are observed through dict(...) / list(...)",
            "harness/c02.py packs the answers of the real object the way Model.obs packs the model's"]
 ASSUMPTIONS = ["attribute keys a0,a1 with values 0..3; node labels ints (label families are C15's job)",
+               "bulk arguments are passed as list / tuple / generator / set, with duplicated, absent and no elements; the list "
+               "behind them is snapshotted and must be unchanged after the call, and the same list object is reused for a "
+               "later equal argument. A networkx graph handed to add_edge_type is adopted as the layer by design (no copy): "
+               "aliasing through that argument is not part of C02 and not tested",
                "subgraph is called with nodes present in the graph; its node/edge attributes are not compared "
                "(accepted empty or equal to the parent's, then normalised to empty)",
                "exception-vs-no-exception is compared only for edge operations on an absent edge type (documented error) "
